@@ -66,34 +66,19 @@ theorem replace_assemble_eq (data new : Bits) (m : Nat) (p : Nat) (ps : List Nat
     slice data 0 p ++ replaceAssemble data new m (p :: ps) = spliceFrom data new m 0 (p :: ps) := by
   exact Split.replaceAssemble_gen data new m ps 0 p
 
-/-- `replace` on the domain where the code validates its arguments.  Full statement (no `hreg`) fails on the pinned
-    tree: see `replace_count0_witness`. -/
-theorem replace_eq_spec_partial (data old new : Bits) (start stop : Option Int) (count : Option Int)
-    (ba : Option Bool) (optBA : Bool)
-    (hreg : replace_count0_unvalidated data.length old start stop count = false)
-    (hc : ∀ c, count = some c → 0 ≤ c) :
+/-- `replace`: ValueError for an empty pattern or an invalid range (whatever `count` is), otherwise `new` is put
+    in place of the first `count` successive non-overlapping matches from the left; the return value is their number. -/
+theorem replace_eq_spec (data old new : Bits) (start stop : Option Int) (count : Option Int)
+    (ba : Option Bool) (optBA : Bool) (hc : ∀ c, count = some c → 0 ≤ c) :
     replace data old new start stop count ba optBA =
       specGuard true data.length old start stop fun s e =>
         specReplace data old new s e (specAligned ba optBA) (countNat count) := by
-  exact Split.replace_main data old new start stop count ba optBA hreg hc
-
-/-- Known finding `replace-count0`: `BitArray('0b101').replace('', '0b1', count=0)` returns 0, the property
-    demands ValueError for an empty pattern (and likewise for an invalid range). -/
-theorem replace_count0_witness :
-    replace_count0_unvalidated 3 [] none none (some 0) = true ∧
-    replace [true, false, true] [] [true] none none (some 0) none false = .ok (0, [true, false, true]) ∧
-    (specGuard true 3 [] none none fun s e => specReplace [true, false, true] [] [true] s e false (some 0))
-      = .error .value ∧
-    replace_count0_unvalidated 3 [true] (some 2) (some 1) (some 0) = true ∧
-    replace [true, false, true] [true] [] (some 2) (some 1) (some 0) none false = .ok (0, [true, false, true]) ∧
-    (specGuard true 3 [true] (some 2) (some 1) fun s e => specReplace [true, false, true] [true] [] s e false (some 0))
-      = .error .value := by
-  decide
+  exact Split.replace_main data old new start stop count ba optBA hc
 
 theorem empty_pattern_error_replace (data new : Bits) (start stop : Option Int) (count : Option Int)
-    (ba : Option Bool) (o : Bool) (h0 : count ≠ some 0) :
+    (ba : Option Bool) (o : Bool) :
     replace data [] new start stop count ba o = .error .value := by
-  simp [replace, h0]
+  simp [replace]
 
 /-! ### cut -/
 
